@@ -288,13 +288,10 @@ pub fn def(ctx: &Ctx) -> PropertyDef {
         scenarios.push(seq_scenario(move |c| seq_spec(c, shards), &name));
     }
     for p in ilv_programs() {
-        scenarios.push(program_scenario(p, ilv_oracle(), move |_c| IlvCfg {
-            bounds: if quick { vec![0, 1, 2] } else { vec![0, 1, 2, 3] },
-            workers,
-            split_depth: 6,
-            time_cap_s: Some(if quick { 5.0 } else { 300.0 }),
-            max_executions: None,
-        }));
+        scenarios.push({
+                let nthreads = p.threads.len();
+                program_scenario(p, ilv_oracle(), move |c| crate::harness::ilv::tier_cfg(c, nthreads))
+            });
     }
     let mut assumptions = COMMON_ASSUMPTIONS.to_vec();
     assumptions.push("requests without a value on a key that reads as absent fall under the documented PutOrUpdateValueMissing precondition and are not checked; no memory pressure (W = 1000..10000)");
